@@ -148,8 +148,28 @@ def kinds_of(model, variant_params):
 
 # ------------------------------------------------------------------ building real objects
 def py_value(arg, table):
+    """the Python object a keyword value is passed as: `pt` selects int / float / NumPy scalar / 0-d array / -0.0"""
     vals = [O.fl(x) for x in arg['v']]
-    v = np.array(vals, dtype=float) if table else vals[0]
+    pt = arg.get('pt', 'float')
+    if table:
+        v = np.array(vals, dtype=float)
+        if pt == 'negzero':
+            v = -v
+    else:
+        x = vals[0]
+        integral = x == int(x) and abs(x) < 2 ** 62
+        if pt == 'negzero':
+            v = -0.0
+        elif pt == 'int' and integral:
+            v = int(x)
+        elif pt == 'npint' and integral:
+            v = np.int64(int(x))
+        elif pt == 'npfloat':
+            v = np.float64(x)
+        elif pt == 'arr0':
+            v = np.array(x)
+        else:
+            v = x
     if arg.get('u') is None:
         return v
     return v * aunit(arg['u'])
@@ -226,12 +246,12 @@ def h_wave(v, unit):
     k = d['k']
     if k == 'length':
         return v * s
-    if k == 'freq':
-        return CF / (v * s)
-    if k == 'wavenumber':
-        return 1.0 / (v * s)
-    if k == 'energy':
-        return HF * CF / (v * s)
+    if k in ('freq', 'wavenumber', 'energy'):
+        num = CF if k == 'freq' else 1.0 if k == 'wavenumber' else HF * CF
+        den = v * s
+        if den == 0:                  # NumPy: a non-zero number divided by +-0.0 is +-inf, no exception
+            return math.copysign(math.inf, den)
+        return num / den
     raise KeyError(unit)
 
 
@@ -252,6 +272,13 @@ def h_photlam(f, unit, lam, K):
     if unit == 'ABmag':
         return 10 ** (-0.4 * f) * ab * CF / lam ** 2 * lam / (HF * CF)
     raise KeyError(unit)
+
+
+def _or_none(f):
+    try:
+        return f()
+    except ZeroDivisionError:       # NumPy: inf or nan, no exception
+        return None
 
 
 def harness_args(case):
@@ -280,13 +307,15 @@ def harness_args(case):
         elif k == 'flux':                         # Const1D has no reference wavelength: internal units only
             if case['cls'] == 'source':
                 lam = refw if refw is not None else [None] * len(vals)
-                conv = [h_photlam(v, un, None if l is None else l * (1 + z), K) for v, l in zip(vals, lam)]
+                conv = [_or_none(lambda: h_photlam(v, un, None if l is None else l * (1 + z), K)) for v, l in zip(vals, lam)]
             else:
                 conv = [v * float(UNITS[un]['s']) for v in vals]
         elif k in ('temp', 'dimless', 'irr'):
             conv = [v * float(UNITS[un]['s']) for v in vals]
         else:
             raise KeyError(k)
+        if any(x is None or not math.isfinite(x) for x in conv):
+            raise FloatingPointError('a converted parameter is not finite')     # reported as NaN, as for the implementation
         out.append([n, {'v': qs(conv), 'u': None}])
     return out
 
@@ -311,6 +340,8 @@ def impl_call(case):
         res['N'] = guarded(lambda: observe(construct(case, margs), case))
     if case['expect'] == 'ok':
         res['H'] = guarded(lambda: observe(construct(case, harness_args(case)), case))
+        if res['H'].get('err') == 'FloatingPointError':
+            res['H'] = {'err': 'NaN'}
         sp = holder.get('Q')
         nat = case.get('native')
         if sp is not None and nat:
@@ -358,7 +389,7 @@ def _obs_scale(o):
     return max([_scale(o['samples'])] + [abs(x) for x in tab if isinstance(x, float) and math.isfinite(x)])
 
 
-def compare_obs(obs, mo, what, stol=1e-9):
+def compare_obs(obs, mo, what, stol=1e-9, no_samples=False):
     """an observed implementation object against the model's object"""
     if 'err' in obs or 'err' in mo['built']:
         if obs.get('err') != mo['built'].get('err'):
@@ -374,10 +405,12 @@ def compare_obs(obs, mo, what, stol=1e-9):
             r = same(o['params'][n], mv, rtol=PRTOL, path='%s.%s' % (what, n))
             if r:
                 return r
+    if no_samples:
+        return None
     return same(o['samples'], mo['samples'], rtol=stol, atol=(stol - 1e-9 + 1e-12) * _obs_scale(o), path=what + '.samples')
 
 
-def compare_pair(a, b, what, stol=1e-9):
+def compare_pair(a, b, what, stol=1e-9, no_samples=False):
     """two implementation objects (plain floats)"""
     if 'err' in a or 'err' in b:
         if a.get('err') != b.get('err'):
@@ -394,6 +427,8 @@ def compare_pair(a, b, what, stol=1e-9):
         if xv is None or len(xv) != len(pv) or any(not close(s, t) for s, t in zip(xv, pv)):
             return 'params', '%s: parameter %s %r vs %r' % (what, n, xv, pv)
     sx, sy = x['samples'], y['samples']
+    if no_samples:
+        return None
     if 'err' in sx or 'err' in sy:
         if sx.get('err') != sy.get('err'):
             return 'samples-error:%s' % sx.get('err', sy.get('err')), '%s: sampling %s vs %s' % (
@@ -408,11 +443,12 @@ def compare_pair(a, b, what, stol=1e-9):
 
 def compare(case, out, mo):
     stol = sample_tol(case)
-    r = compare_obs(out['Q'], mo, 'quantities', stol)
+    ns = bool(case.get('no_samples'))
+    r = compare_obs(out['Q'], mo, 'quantities', stol, ns)
     if r:
         return r
     if 'N' in out:
-        r = compare_pair(out['Q'], out['N'], 'from quantities vs from the numbers the model converts them to', stol)
+        r = compare_pair(out['Q'], out['N'], 'from quantities vs from the numbers the model converts them to', stol, ns)
         if r:
             return r[1]
     return None
@@ -429,10 +465,13 @@ def oracle(rep, case, out):
                             'expected %s, got %s' % (exp, Q.get('err', 'an object')), case, Q)
         return
     stol = sample_tol(case)
-    r = compare_pair(Q, out['H'], 'object from quantities vs object from numbers converted by the harness', stol)
+    r = compare_pair(Q, out['H'], 'object from quantities vs object from numbers converted by the harness', stol,
+                     bool(case.get('no_samples')))
     if r:
         rep.oracle_fail('quantity_vs_number:%s:%s:%s' % (cls, model, r[0]), r[1], case, Q)
         return
+    if case.get('special') and ('err' in Q or 'err' in Q['ok']['samples']):
+        return      # a degenerate value may legitimately fail (0/0, negative temperature): it failed the same way both times
     if 'err' in Q or 'err' in Q['ok']['samples']:
         rep.oracle_fail('valid:%s:%s:%s' % (cls, model, Q.get('err') or Q['ok']['samples'].get('err')),
                         'valid construction or sampling raised', case, Q)
@@ -551,6 +590,18 @@ def variants(model):
     return [CLASSES[model][1]]
 
 
+def _special_value(kind, ordinary):
+    if kind in ('zero', 'negzero'):
+        return 0.0
+    if kind == 'neg':
+        return -abs(ordinary) if ordinary != 0 else -1.0
+    if kind == 'tiny':
+        return 2.0 ** -120
+    if kind == 'huge':
+        return 2.0 ** 60
+    raise KeyError(kind)
+
+
 def _conserved(vals, unit, zf, conserve):
     """what a value given in `unit` reads back as at the redshifted wavelength: itself, or - with flux
     conservation - divided by 1+z (magnitudes: + 2.5 log10(1+z))"""
@@ -561,7 +612,7 @@ def _conserved(vals, unit, zf, conserve):
     return [v / (1 + zf) for v in vals]
 
 
-def gen_case(rng, K, BB, model, cls, z, names, focus=None, focus_unit=None, ntab=6, ztype=None):
+def gen_case(rng, K, BB, model, cls, z, names, focus=None, focus_unit=None, ntab=6, ztype=None, special=None):
     kinds = kinds_of(model, names)
     units = pick_units(rng, names, kinds, cls, model, focus, focus_unit)
     ref = CLASSES[model][0]
@@ -614,6 +665,10 @@ def gen_case(rng, K, BB, model, cls, z, names, focus=None, focus_unit=None, ntab
             s = 100.0 if un == 'percent' else 1.0
             vals = [dyf(rng, 0, 1, 6) * s for _ in pts]
         args['lookup_table'] = {'v': qs(vals), 'u': un}
+        if special is not None and special[0] == 'lookup_table':
+            sv = _special_value(special[1], 1.0)
+            args['lookup_table'] = {'v': qs([sv] * len(pts)), 'u': un, 'pt': 'negzero' if special[1] == 'negzero' else 'float'}
+            case['special'] = 'flux:' + special[1]
         case['keep_neg'] = rng.random() < 0.3
         lo, hi = min(pts), max(pts)
         grid = [lo * 0.9] + [lo + (hi - lo) * t for t in (0.0, 0.07, 0.19, 0.33, 0.41, 0.5, 0.58, 0.66, 0.74, 0.83, 0.91, 0.97, 1.0)] \
@@ -663,8 +718,32 @@ def gen_case(rng, K, BB, model, cls, z, names, focus=None, focus_unit=None, ntab
             un = units['slope']
             sl = amp_photlam / (width * rng.choice([0.125, 0.25, 0.5]))
             args['slope'] = {'v': qs([sl * (100.0 if un == 'percent' else 1.0)]), 'u': un}
+        avoid_centre = False
+        if special is not None and special[0] in args:
+            pn, sk, pt = special
+            a = args[pn]
+            sv = _special_value(sk, O.fl(a['v'][0]))
+            a['v'] = qs([sv])
+            a['pt'] = 'negzero' if sk == 'negzero' else pt
+            case['special'] = '%s:%s' % (kinds[pn], sk)
+            if kinds[pn] in ('wave', 'own') or pn == 'slope':
+                # a zero / negative width, centre or slope makes evaluate() of the astropy models singular (0/0, inf * 0,
+                # signed zeros): construction and STORED parameters are compared, sampled values are not
+                case['no_samples'] = True
+            if kinds[pn] in ('wave', 'own'):
+                hv = h_wave(sv, a['u'])
+                if math.isfinite(hv):          # 0 Hz is an infinite wavelength: the request itself becomes NaN
+                    if pn in WIDTHS:
+                        width = hv
+                        avoid_centre = width == 0
+                    elif pn == ref or pn == 'x_0':
+                        refaa = hv
         # sample grid around the feature, in units of its width; the box is the only profile with jumps (at +-1/2)
-        if model == 'Box1D':
+        if avoid_centre or (special is not None and model == 'Box1D' and width <= 0):
+            # a feature of zero width: every profile is singular exactly at its centre (0/0); stay off it
+            base = abs(refaa) if refaa != 0 else 1000.0
+            grid = [base * r for r in (0.25, 0.5, 0.75, 0.9, 1.1, 1.5, 2.0, 3.0)]
+        elif model == 'Box1D':
             ts = [-1.5, -1.0, -0.75, -0.4, -0.3, -0.2, -0.1, 0, 0.1, 0.2, 0.3, 0.4, 0.75, 1.0, 1.5, 2.0]
             grid = [refaa + width * t for t in ts]
         elif model == 'Trapezoid1D':
@@ -675,8 +754,11 @@ def gen_case(rng, K, BB, model, cls, z, names, focus=None, focus_unit=None, ntab
             grid = [refaa + width * t for t in ts]
         else:
             grid = [refaa * r for r in (0.3, 0.4, 0.5, 0.62, 0.75, 0.87, 0.95, 1.0, 1.08, 1.2, 1.4, 1.7, 2.0, 2.4, 2.8, 3.2)]
+    if special is not None and model not in TABLES:
+        base = abs(refaa) if refaa != 0 else 1000.0
+        grid = list(grid) + [base * r for r in (0.5, 0.9, 1.1, 2.0)] if model != 'Box1D' else grid
     if model not in TABLES and any(n in WIDTHS for n in names):
-        cond = max(1.0, refaa / width)
+        cond = max(1.0, abs(refaa) / abs(width)) if width != 0 and refaa != 0 else 1.0
     case['cond'] = cond
     case['regime'] = 'wide' if wide else 'optical'
     # keyword order: as Python callers would write them, shuffled
@@ -685,7 +767,8 @@ def gen_case(rng, K, BB, model, cls, z, names, focus=None, focus_unit=None, ntab
     case['args'] = [[n, args[n]] for n in order]
     case['xs'] = qs(sorted({x * (1 + zf) for x in grid if x > 0}))
     # ---- what the statement says about sampling in the unit the value was given in
-    if cls == 'source' and model in PEAKED and amp_unit in FLUX_UNITS and 'amplitude' in names:
+    regular = model in TABLES or (refaa > 0 and width > 0)
+    if cls == 'source' and model in PEAKED and amp_unit in FLUX_UNITS and 'amplitude' in names and regular:
         case['native'] = {'what': 'amplitude_at_reference', 'unit': amp_unit, 'xs': qs([refaa * (1 + zf)]),
                           'expect': qs(_conserved([O.fl(args['amplitude']['v'][0])], amp_unit, zf, conserve))}
     if cls == 'source' and model == 'Empirical1D' and units['lookup_table'] in FLUX_UNITS:
@@ -699,11 +782,11 @@ def gen_case(rng, K, BB, model, cls, z, names, focus=None, focus_unit=None, ntab
     if model == 'ConstFlux1D' and amp_unit in FLUX_UNITS:
         case['native'] = {'what': 'constant', 'unit': amp_unit, 'xs': case['xs'],
                           'expect': [args['amplitude']['v'][0]] * len(case['xs']) if zf == 0 else 'constant'}
-    if model == 'PowerLawFlux1D' and amp_unit in FLUX_UNITS and zf == 0:
+    if model == 'PowerLawFlux1D' and amp_unit in FLUX_UNITS and zf == 0 and regular:
         a, al = O.fl(args['amplitude']['v'][0]), O.fl(args['alpha']['v'][0]) * (0.01 if units['alpha'] == 'percent' else 1.0)
         case['native'] = {'what': 'power_law', 'unit': amp_unit, 'xs': case['xs'],
                           'expect': qs([a * (O.fl(x) / refaa) ** (-al) for x in case['xs']])}
-    if model == 'GaussianFlux1D' and names == ['total_flux', 'mean', 'fwhm']:
+    if model == 'GaussianFlux1D' and names == ['total_flux', 'mean', 'fwhm'] and regular:
         tf = args['total_flux']
         case['gaussflux'] = {'F': q(O.fl(tf['v'][0]) * (float(UNITS[tf['u']]['s']) if tf['u'] else 1.0)),
                              'mean_aa': q(refaa), 'fwhm_aa': q(width)}
@@ -848,6 +931,32 @@ def gen_all(rep, rng, n_random, n_reject, ntab):
                                 rot += 1
                                 cases.append(gen_case(rng, K, BB, model, cls, ZS[(rot * 4 + i * 3) % len(ZS)], names,
                                                       focus=p, focus_unit=un, ntab=ntab))
+    # special values: every numeric parameter of every class exactly 0 (as int, float, -0.0, NumPy scalars, 0-d array,
+    # and as a Quantity in each of its units), negative, 2^-120 and 2^60
+    pts = ['int', 'float', 'npfloat', 'npint', 'arr0']
+    k = 0
+    for cls in ('source', 'unitless'):
+        for model in classes_for(cls):
+            for names in variants(model):
+                kinds = kinds_of(model, names)
+                for p in names:
+                    if p == 'points':
+                        continue
+                    for sk in ('zero', 'negzero', 'neg', 'tiny', 'huge'):
+                        if sk in ('tiny', 'huge') and kinds[p] not in ('flux', 'noconv', 'irr'):
+                            continue
+                        if sk == 'negzero' and (kinds[p] in ('wave', 'own', 'temp') or p == 'slope'):
+                            continue      # -0.0 where the code divides by the value: the sign of zero is not a real number
+                        us = compatible_units(kinds[p], cls, model)
+                        if sk != 'zero':
+                            us = [rng.choice(us)]
+                        for un in us:
+                            if un in MAGS and sk in ('tiny', 'huge'):
+                                continue
+                            k += 1
+                            z = rng.choice(ZS) if cls == 'source' else F(0)
+                            cases.append(gen_case(rng, K, BB, model, cls, z, names, focus=p, focus_unit=un, ntab=ntab,
+                                                  special=(p, sk, pts[k % len(pts)])))
     n_exh = len(cases)
     for _ in range(n_random):
         cls = 'source' if rng.random() < 0.7 else 'unitless'
@@ -881,6 +990,8 @@ def execute(rep, cases):
         units = sorted({a.get('u') or 'number' for _, a in c['args']})
         tags = ['class:' + c['cls'], 'model:' + c['model'], 'z:' + c['z'], 'expect:' + c['expect'],
                 'regime:' + c.get('regime', '?')] + ['unit:' + u for u in units]
+        if c.get('special'):
+            tags.append('special:' + c['special'])
         if not ok:
             tags.append('reject:' + c['tag'].split(':')[0])
         rep.count({k: v for k, v in c.items() if k not in ('const', 'bbconst', '_model_out')},
